@@ -321,8 +321,17 @@ def g_namevalue(rng):
     return "\n".join(lines).encode("utf8")
 
 
+HIGH_FACES = [13, 14, 20, 21, 44, 45, 46, 62, 63]     # group boundaries of the 7-bit face bitfield, and beyond MAX_TES
+
+
 def g_faces(rng):
-    faces = rng.sample(range(0, rng.choice([7, 8, 14, 21, 32])), rng.randrange(1, 4))
+    m = rng.random()
+    if m < 0.2:
+        faces = [rng.choice(HIGH_FACES)]                                   # a high face alone
+    elif m < 0.45:
+        faces = rng.sample(HIGH_FACES, rng.randrange(1, 4)) + rng.sample(range(0, 13), rng.randrange(0, 3))
+    else:
+        faces = rng.sample(range(0, rng.choice([7, 8, 14, 21, 32])), rng.randrange(1, 4))
     packed = 0
     for f in faces:
         packed |= 1 << f
